@@ -138,7 +138,7 @@ QUERIES = [
           outside=["formula shapes outside the 6 call spellings x def/default"]),
 ]
 
-BUDGET = {"quick": 400, "thorough": 2400}
+BUDGET = {"quick": 400, "thorough": 1200}
 
 
 import os as _os
